@@ -29,6 +29,7 @@ def handle (s : S) : List String → S × String
       let wrongKind := (ev != "ev=-") && (((ev.drop 3).toString.splitOn ",").any (fun e => !(e.startsWith s.kind)))
       let nexc := ((exc.drop 4).toString.toNat?).getD 0
       if op == "leaked" then (s, "specviol timer still armed after inactive") else
+      if op == "notimer" then (s, "specviol the handler is active but has no timer pending: it will never report idleness") else
       -- model step
       let mo : Option St := match op with
         | "active" => step s.st (.active tt)
@@ -36,6 +37,7 @@ def handle (s : S) : List String → S × String
         | "inactive" => step s.st (.inactive tt)
         | "fire" => step s.st (.fire tt)
         | "fireinact" => fireThenInactive s.st tt
+        | "activeinact" => (step s.st (.active tt)).bind (step · (.inactive tt))
         | _ => none
       -- specification on the implementation's own events
       let idle := s.st.idle
@@ -58,6 +60,7 @@ def handle (s : S) : List String → S × String
         | "touch" => { s with lastTouch := tt }
         | "inactive" => { s with isActive := false }
         | "fireinact" => { s with isActive := false }
+        | "activeinact" => { s with isActive := false }
         | _ => s
       match specBad with
       | some v => ({ s2 with st := mo.getD s.st }, s!"specviol {v}")
